@@ -30,9 +30,9 @@ func (c *fnCtx) interesting(entry int) bool {
 		seen[i] = true
 		n := c.p.Nodes[i-1]
 		switch n.K {
-		case "skip", "nd", "ret", "defer", "undefer":
+		case "skip", "nd", "ret", "defer", "undefer", "nl":
 		case "test":
-			if n.A != "deferred" {
+			if n.A != "deferred" && n.A != "nl" {
 				return true
 			}
 		default:
@@ -245,6 +245,24 @@ func (c *fnCtx) cond(e ast.Expr, t, f int) int {
 			return c.cond(x.X, t, c.cond(x.Y, t, f))
 		}
 	}
+	// <tracked variable> ==/!= nil
+	if b, ok := unparen(e).(*ast.BinaryExpr); ok && (b.Op == token.EQL || b.Op == token.NEQ) {
+		if id, ok := unparen(b.Y).(*ast.Ident); ok && id.Name == "nil" {
+			if v, ok := unparen(b.X).(*ast.Ident); ok && v.Obj != nil && c.slots[v.Obj] > 0 {
+				return c.nodeS("test", "nl", b.Op.String(), 0, c.slots[v.Obj], t, f, e)
+			}
+		}
+	}
+	// a boolean helper of the package is compiled as the condition it computes
+	if call, ok := unparen(e).(*ast.CallExpr); ok {
+		if fi := c.boolHelper(call); fi != nil {
+			n := c.inlineWith(fi, call, 0, nil, true, t, f)
+			for i := len(call.Args) - 1; i >= 0; i-- {
+				n = c.calls(call.Args[i], n)
+			}
+			return n
+		}
+	}
 	if a, op, cv, ok := c.atom(e); ok {
 		if a == "const" {
 			if cv == 1 {
@@ -340,11 +358,13 @@ func (c *fnCtx) calls(n ast.Node, next int) int {
 			cc := c.child()
 			cc.defers = map[*ast.DeferStmt]int{}
 			cc.brk, cc.cont = nil, nil
+			cc.rv, cc.condMode = nil, false
 			next = cc.buildFunc(t.fl.Body, t.fl.Type, nil, next)
 		case *ast.FuncLit:
 			// a closure value: it may run later; model-relevant bodies are not supported
 			sc := c.scratch()
 			sc.defers = map[*ast.DeferStmt]int{}
+			sc.rv, sc.condMode = nil, false
 			e := sc.buildFunc(t.Body, t.Type, nil, 1)
 			if sc.interesting(e) {
 				c.x.unsupported(t.Pos(), "closure value with model-relevant body")
@@ -495,6 +515,11 @@ func (c *fnCtx) primitive(cls string, at ast.Node, next int) int {
 
 // inline compiles the callee's body at the call site (its returns continue at next).
 func (c *fnCtx) inline(fi *funcInfo, call *ast.CallExpr, next int) int {
+	return c.inlineWith(fi, call, next, nil, false, 0, 0)
+}
+
+// inlineWith: rv = slots of the caller's variables receiving the results; condMode = compile `return b` as a branch to ct / cf.
+func (c *fnCtx) inlineWith(fi *funcInfo, call *ast.CallExpr, next int, rv []int, condMode bool, ct, cf int) int {
 	key := fi.decl.Name.Name
 	if fi.recv != "" {
 		key = fi.recv + "." + key
@@ -517,7 +542,8 @@ func (c *fnCtx) inline(fi *funcInfo, call *ast.CallExpr, next int) int {
 		return c.node("unknown", key+" (no body)", "", 0, next, 0, call)
 	}
 	cc := &fnCtx{x: c.x, fi: fi, p: c.p, env: map[string]string{}, amt: map[string]bool{}, bconst: map[string]bool{},
-		defers: map[*ast.DeferStmt]int{}, stack: append(append([]string{}, c.stack...), key)}
+		defers: map[*ast.DeferStmt]int{}, stack: append(append([]string{}, c.stack...), key),
+		rv: rv, condMode: condMode, condT: ct, condF: cf}
 	// bind parameters: amount variables and boolean constants
 	i := 0
 	if fi.decl.Type.Params != nil {
